@@ -130,11 +130,9 @@ int main() {
         int th = atoi(t[0].c_str());
         if (th >= 0 && th < k) work[th].push_back(t);
     }
-    // alone, one after the other
-    std::vector<std::vector<std::string> > ref(k);
-    size_t nops = 0;
-    for (int i = 0; i < k; ++i) for (size_t j = 0; j < work[i].size(); ++j) { ref[i].push_back(run_op(work[i][j])); ++nops; }
-    printf("REF %zu\n", nops);
+    // the concurrent rounds come FIRST: whatever the library initialises or caches lazily on first use must happen while
+    // the threads run (a sequential warm-up in the same process would hide it); the run alone follows and is the reference
+    std::vector<std::vector<std::vector<std::string> > > outs;
     for (int r = 0; r < rounds; ++r) {
         std::atomic<int> ready(0);
         std::atomic<bool> go(false);
@@ -154,10 +152,17 @@ int main() {
         while (ready.load() < k) sched_yield();
         go.store(true);
         for (auto& t : ths) t.join();
+        outs.push_back(out);
+    }
+    std::vector<std::vector<std::string> > ref(k);
+    size_t nops = 0;
+    for (int i = 0; i < k; ++i) for (size_t j = 0; j < work[i].size(); ++j) { ref[i].push_back(run_op(work[i][j])); ++nops; }
+    printf("REF %zu\n", nops);
+    for (int r = 0; r < rounds; ++r) {
         bool same = true;
         for (int i = 0; i < k && same; ++i)
             for (size_t j = 0; j < ref[i].size(); ++j)
-                if (out[i][j] != ref[i][j]) { printf("ROUND %d DIFF thread %d op %zu: alone \"%.80s\" concurrent \"%.80s\"\n", r, i, j, ref[i][j].c_str(), out[i][j].c_str()); same = false; break; }
+                if (outs[r][i][j] != ref[i][j]) { printf("ROUND %d DIFF thread %d op %zu: alone \"%.80s\" concurrent \"%.80s\"\n", r, i, j, ref[i][j].c_str(), outs[r][i][j].c_str()); same = false; break; }
         if (same) printf("ROUND %d OK\n", r);
     }
     return 0;
